@@ -143,6 +143,7 @@ func defaultConfig() *Config {
 		ConcCap:           300,
 		SymIdxCap:         320,
 		SolverTimeoutS:    10,
+		ItemTimeoutS:      itemTimeout(),
 		MaxViolations:     4,
 	}
 }
@@ -253,6 +254,10 @@ func runItems(P *Program, items []WorkItem, workers int, witnessPer int, trace b
 					}
 				}
 				out[it.Idx] = ItemResult{Item: it, Res: res, Wall: time.Since(t0).Seconds()}
+				if os.Getenv("VERIF_PROGRESS") != "" {
+					pb, _ := json.Marshal(it.Params)
+					fmt.Fprintf(os.Stderr, "done %s %s %s paths=%d %.1fs\n", it.Spec.Name, pb, res.Status, res.Paths, time.Since(t0).Seconds())
+				}
 			}
 		}()
 	}
@@ -415,4 +420,12 @@ func instrLimit() int64 {
 		return n
 	}
 	return 400_000_000
+}
+
+func itemTimeout() int {
+	if v := os.Getenv("VERIF_ITEM_TIMEOUT"); v != "" {
+		n, _ := strconv.Atoi(v)
+		return n
+	}
+	return 900
 }
